@@ -1,3 +1,7 @@
+import shutil
+import os
+import io
+import contextlib
 """C13 - every expression rexpy returns compiles, is anchored, matches at least one example, is returned once,
 and there are never more expressions than distinct examples; capture-group tagging changes only the grouping.
 (K) the extracted model of the Extractor replays each real run (exact expressions); (S) the property itself on the
@@ -201,7 +205,7 @@ def run(ctx):
                          finding='c13-portable-digits' if fc else None)
     for it in range(40 if ctx.quick else 1500):
         strings = R.gen_examples(rng)
-        opts = R.gen_opts(rng)
+        opts = {k_: v_ for k_, v_ in R.gen_opts(rng).items() if k_ != "verbose"}
         if rng.random() < 0.5:
             opts['strip'] = True
             # (every string padded: an expression without the white-space allowance then matches nothing as given)
@@ -249,6 +253,42 @@ def run(ctx):
             ctx.fail(case, 'pdextract raised %s: %s' % (type(e_).__name__, str(e_)[:200]))
             continue
         judge(case, list(rexes), vals, {})
+    # ---- the file route (rexpy_streams: one example per line of a text file, with or without a header line, the
+    # expressions returned or written to a file): the examples are the lines as they stand, trailing blanks included
+    import tempfile
+    fdir = tempfile.mkdtemp(prefix='c13-files-', dir=lib.WORK)
+    try:
+        for it in range(30 if ctx.quick else 800):
+            pad = rng.choice(['', '', '   ', '\t', ' \t '])
+            strings = [s_ + pad for s_ in R.gen_examples(rng) if s_ and not any(ch in s_ for ch in '\n\r\x0b\x0c\x1c\x1d\x1e\x85\u2028\u2029')]
+            if pad and rng.random() < 0.3 and strings:
+                strings[0] = strings[0].rstrip() + 'x'          # not every line is padded
+            if not strings:
+                continue
+            header = rng.random() < 0.4
+            opts = {k_: v_ for k_, v_ in R.gen_opts(rng).items() if k_ in ('dialect', 'tag', 'extra_letters', 'variableLengthFrags')}
+            inp = os.path.join(fdir, 'in%d.txt' % (it % 3))
+            outp = os.path.join(fdir, 'out%d.txt' % (it % 3))
+            with open(inp, 'w', encoding='utf-8', newline='') as f_:
+                f_.write(''.join(l_ + '\n' for l_ in (['a header line'] if header else []) + strings))
+            case = {'form': 'text file, one example per line', 'lines': repr(strings)[:1500], 'header_line_skipped': header, 'opts': opts}
+            ctx.count(repr(case), True)
+            ctx.bump('form.file%s' % ('.padded' if pad else ''))
+            try:
+                with contextlib.redirect_stdout(io.StringIO()):
+                    if rng.random() < 0.5:
+                        rexes = rx.rexpy_streams(inp, out_path=False, skip_header=header, **opts)
+                    else:
+                        rx.rexpy_streams(inp, out_path=outp, skip_header=header, **opts)
+                        rexes = open(outp, encoding='utf-8').read().splitlines()
+            except Exception as e_:
+                ctx.fail(case, 'rexpy_streams raised %s: %s' % (type(e_).__name__, str(e_)[:200]))
+                continue
+            judge(case, list(rexes), strings, opts)
+            if R.unmatched(list(rexes), strings) and not R.finding_class(''.join(strings), opts):
+                ctx.fail(case, 'line %r of the file is matched by none of the expressions %r' % (R.unmatched(list(rexes), strings)[0], rexes))
+    finally:
+        shutil.rmtree(fdir, ignore_errors=True)
     ctx.cov['rule'] = ('as C03 (multisets x options x dialect x Size x seed) plus empty inputs; every run is repeated with '
                        'tagging flipped and both results are compared on the examples and on near-miss probe strings')
     ctx.assumptions += ['re.compile / re.match of CPython decide validity and matching']
